@@ -491,6 +491,38 @@ func c18Run(c c18Case, st *fw.Stats) []fw.Viol {
 			if len(hist) > 1 {
 				ages = []int{0, 50, 100} // the full value grid runs on the one-operation histories
 			}
+			// a completely EMPTY value set (no query string, an empty body, a multipart body without fields, "{}"): the
+			// bound struct is the zero value, which the rules reject
+			{
+				st.Evals++
+				st.Nontrivial++
+				var req *http.Request
+				switch c.Format {
+				case "query":
+					req = httptest.NewRequest("GET", "/x", nil)
+				case "form":
+					req = httptest.NewRequest("POST", "/x", strings.NewReader(""))
+					req.Header.Set("Content-Type", "application/x-www-form-urlencoded")
+				case "multipart":
+					req = httptest.NewRequest("POST", "/x", strings.NewReader(c18MultipartBody(nil)))
+					req.Header.Set("Content-Type", "multipart/form-data; boundary=BOUNDARY")
+				case "json":
+					req = httptest.NewRequest("POST", "/x", strings.NewReader("{}"))
+					req.Header.Set("Content-Type", "application/json")
+				default:
+					req = httptest.NewRequest("POST", "/x", strings.NewReader("<r></r>"))
+					req.Header.Set("Content-Type", "application/xml")
+				}
+				var got c18Rule
+				var err error
+				if pv := try(func() { err = binding.Auto(req, &got) }); pv != nil {
+					add("validator:panic", fmt.Sprintf("%s bind of an empty value set panicked: %v", c.Format, pv))
+				} else if on && err == nil {
+					add("validator:bind-succeeded-on-invalid", fmt.Sprintf("%s, validator enabled (switch history %v): binding an EMPTY value set succeeded with %+v although the zero value violates the struct's rules", c.Format, hist, got))
+				} else if !on && err != nil {
+					add("validator:error-while-disabled", fmt.Sprintf("%s, validator disabled (switch history %v): binding an empty value set failed: %v", c.Format, hist, err))
+				}
+			}
 			for _, age := range ages {
 				for _, name := range []string{"", "a", "ab", "abc"} {
 					st.Evals++
@@ -627,7 +659,7 @@ var c18Spec = fw.Spec[c18Case]{
 	ID:      "C18",
 	Level:   "model_checking",
 	Workers: 1,
-	Rule: "complete enumeration: decision table 19 method tokens (the nine standard ones, extension methods, other spellings, empty) x 22 Content-Type strings (the unsupported ones include sub-types spelled like registered binder names) x query present/absent, every source carrying a different value; all sequences of <=3 (thorough 4) binds over 6 sources of a struct whose field has a different name in every source's tag; round trip of all values of a struct over int{0,1,-7,2^31} x 9 strings (unicode, separators, markup, quotes) x bool x 4 int slices through query / urlencoded / multipart / JSON / XML; all byte strings of length <=4 (thorough 5) over 14 bytes as body per format (must not panic; malformed JSON/XML must yield an error); validator on/off reached through every history of <=3 switch operations {ResetValidator, DisableValidator, assign a custom validator, assign nil} x values on both sides of each rule; " +
+	Rule: "complete enumeration: decision table 19 method tokens (the nine standard ones, extension methods, other spellings, empty) x 22 Content-Type strings (the unsupported ones include sub-types spelled like registered binder names) x query present/absent, every source carrying a different value; all sequences of <=3 (thorough 4) binds over 6 sources of a struct whose field has a different name in every source's tag; round trip of all values of a struct over int{0,1,-7,2^31} x 9 strings (unicode, separators, markup, quotes) x bool x 4 int slices through query / urlencoded / multipart / JSON / XML; all byte strings of length <=4 (thorough 5) over 14 bytes as body per format (must not panic; malformed JSON/XML must yield an error); validator on/off reached through every history of <=3 switch operations {ResetValidator, DisableValidator, assign a custom validator, assign nil} x values on both sides of each rule and a completely empty value set; " +
 		"non-trivial = a table row / a round-tripped value / a malformed body",
 	Assume: []string{"media types that merely contain a canonical subtype as a substring (application/jsonp) are outside the alphabet", "runs single-threaded: the validator switch is package-global", "encoding/json and encoding/xml decide what 'malformed' means"},
 	Bounds: func(tier string) map[string]any {
